@@ -517,6 +517,17 @@ func (el *EventList) Verify(acc *Accumulator) error {
 		if event == nil || event.E == nil {
 			return errors.New("event list contains an event without revocation attribute")
 		}
+		// The event hash only covers the absolute value of the revocation attribute
+		if event.E.Sign() <= 0 {
+			return errors.New("event list contains an event with a non-positive revocation attribute")
+		}
+	}
+	// The event hash covers the parent hash followed by the revocation attribute, without any
+	// framing. Only a well-formed parent hash, whose length is fixed by its header, pins down
+	// where the one ends and the other begins. (The parent hashes of the later events are
+	// compared to the hash of their predecessor below.)
+	if _, err = events[0].ParentHash.Algorithm(); err != nil {
+		return errors.WrapPrefix(err, "first event of update chain has malformed parent hash", 0)
 	}
 	if err = events[count-1].hashEquals(acc.EventHash); err != nil {
 		return errors.WrapPrefix(err, "update chain has wrong hash", 0)
